@@ -83,6 +83,25 @@ public:
    /// @since  0.2, 10.04.2016
    TypedArgBase* findArg( const ArgumentKey& key) const;
 
+   /// Searches for the argument with the given key in two containers that
+   /// share one key space (arguments and sub-group arguments of a handler):
+   /// An exact match in either container wins, an abbreviation must be
+   /// unambiguous over both containers.
+   ///
+   /// @param[in]   key       The short or long argument name to search for.
+   /// @param[in]   first     The first container to search in.
+   /// @param[in]   second    The second container to search in.
+   /// @param[out]  in_first  Set to \c true when the returned argument is
+   ///                        stored in the first container.
+   /// @return  Pointer to the argument handler object if the argument is
+   ///          defined, NULL otherwise.
+   /// @throw
+   ///    std::runtime_error if an abbreviation matches more than one argument.
+   /// @since  1.47.1, 01.10.2026
+   static TypedArgBase* findArg( const ArgumentKey& key,
+      const ArgumentContainer& first, const ArgumentContainer& second,
+      bool& in_first) noexcept( false);
+
    /// Checks that the given key is not used by an argument in this container
    /// and does not conflict with one of the stored keys.<br>
    /// Used when a handler stores its arguments in two containers (arguments
